@@ -237,6 +237,10 @@ type stateCtx struct {
 	b       *block.Block // the valid next block (decoded, never mutated)
 	bBytes  []byte
 	b2Bytes []byte // a valid block on top of b
+	b2      *block.Block
+	b2Root  string          // reference state root after b and b2
+	cv2     *chainView      // what the predicate knows about the state after b
+	vals2   keys.PublicKeys // validators of the height of b2
 	bRoot   string // reference state root after b (replica that only ever saw b)
 
 	sp        map[string]*transaction.Transaction // special transactions, see buildSpecials
@@ -371,6 +375,25 @@ func buildState(sc *chainx.Scenario, h []int, md mode) (c *stateCtx, err error) 
 		return nil, err
 	}
 	c.bRoot = sr.Root.StringLE()
+	// the view of the state after b (for candidates at the height of b2)
+	cv2 := *cv
+	cv2.Tip = &c.b.Header
+	cv2.LocalRoot = sr.Root
+	cv2.OnChain = map[util.Uint256]uint32{}
+	for k, v := range cv.OnChain {
+		cv2.OnChain[k] = v
+	}
+	for _, t := range c.b.Transactions {
+		cv2.OnChain[t.Hash()] = c.b.Index
+	}
+	cv2.Balance = map[util.Uint160]int64{}
+	for _, a := range accs {
+		cv2.Balance[a] = bc.GetUtilityTokenBalance(a, util.Uint160{}).Int64()
+	}
+	c.cv2 = &cv2
+	if c.vals2, err = bc.GetNextBlockValidators(); err != nil {
+		return nil, err
+	}
 	t3, err := n.MakeTx(transferScript(2, 1, 1*gas), []neotest.Signer{chainx.Signer(2)}, func(t *transaction.Transaction) { t.Nonce = 0xC0600004 })
 	if err != nil {
 		return nil, fmt.Errorf("b2 tx: %w", err)
@@ -382,6 +405,16 @@ func buildState(sc *chainx.Scenario, h []int, md mode) (c *stateCtx, err error) 
 	if c.b2Bytes, err = chainx.BlockBytes(b2); err != nil {
 		return nil, err
 	}
+	if c.b2, err = chainx.DecodeBlock(c.b2Bytes, c.fam.SRIH); err != nil {
+		return nil, err
+	}
+	if v := c.cv2.judge(c.b2); !v.Valid() {
+		return nil, fmt.Errorf("harness: the predicate rejects the valid successor: %v", v.Why)
+	}
+	if sr, err = bc.GetStateRoot(b2.Index); err != nil {
+		return nil, err
+	}
+	c.b2Root = sr.Root.StringLE()
 	// features (for the coverage report and the choice of quick states)
 	idx := c.b.Index
 	if n.Opts.Multi {
